@@ -14,9 +14,11 @@ import (
 	"bytes"
 	"encoding/json"
 	"fmt"
+	"math"
 	"sort"
 	"strconv"
 	"strings"
+	"time"
 
 	. "verifharness/hlib"
 )
@@ -260,6 +262,71 @@ func c16monitor(c *Ctx, cs *Case, ob obs) {
 			continue
 		}
 		checkLine(cs, m, string(out), viol)
+	}
+	timePart(cs, m, viol)
+}
+
+// timePart: the time part of an event whose timestamp is a JSON integer under a UNIX TimeFieldFormat, against a
+// reference written here: the instant is exactly that many seconds / milli / micro / nanoseconds since the epoch,
+// shown in the configured location with the configured layout (lossless: no digit of the instant is dropped
+// that the layout prints).
+func timePart(cs *Case, m map[string]interface{}, viol func(key, mon, desc string, observed, expected interface{})) {
+	o := cs.Opts
+	num, ok := m["time"].(json.Number)
+	if !ok || inList("time", o.PartsExclude) || (o.PartsOrderSet && !inList("time", o.PartsOrder)) {
+		return
+	}
+	txt := string(num)
+	for i, ch := range txt {
+		if !(ch >= '0' && ch <= '9') && !(ch == '-' && i == 0) {
+			return
+		}
+	}
+	v, err := strconv.ParseInt(txt, 10, 64)
+	if err != nil {
+		return
+	}
+	var mult int64
+	switch o.TimeFieldFormat {
+	case "": // TimeFormatUnix
+		mult = 0
+	case "UNIXMS":
+		mult = 1000000
+	case "UNIXMICRO":
+		mult = 1000
+	case "UNIXNANO":
+		mult = 1
+	default:
+		return
+	}
+	var inst time.Time
+	if mult == 0 {
+		inst = time.Unix(v, 0)
+	} else {
+		if v > math.MaxInt64/mult || v < math.MinInt64/mult {
+			return // the nanosecond count does not fit an int64: outside what a time.Duration can carry
+		}
+		inst = time.Unix(0, v*mult)
+	}
+	loc := o.location()
+	if loc == nil {
+		loc = time.Local
+	}
+	layout := o.TimeFormat
+	if layout == "" {
+		layout = time.Kitchen
+	}
+	want := inst.In(loc).Format(layout)
+	all := make([]string, 0, len(m))
+	for k := range m {
+		all = append(all, k)
+	}
+	o1 := o
+	o1.PartsOrderSet, o1.PartsOrder, o1.PartsExclude, o1.FieldsOrder, o1.FieldsExclude = true, []string{"time"}, nil, nil, all
+	ob := render(&Case{Event: cs.Event, Opts: o1}, 1)
+	got := strings.TrimSuffix(string(ob.outs[0]), "\n")
+	if got != want {
+		viol("time-part-differs", "time-part-reference", fmt.Sprintf("timestamp %s under TimeFieldFormat %q, TimeFormat %q: the time part reads %q, the instant is %q", txt, o.TimeFieldFormat, layout, got, want), got, want)
 	}
 }
 
